@@ -14,6 +14,10 @@ def hook_commits():
     return [l.split()[0] for l in out.splitlines() if "verif hook" in l]
 
 CHECKS = {
+ "C01": dict(cat="exploration", design="DESIGN.md section 6 C01",
+   text="One simulated device drives the real LocalAccount through seeded histories over the whole operation alphabet (15 secret kinds, custom fields, empty/large values, folder ops, folder-level creates with caller-chosen, re-used and resurrected ids) with sign-out/sign-in and restarts from persisted storage at arbitrary positions; after every step everything the account serves is compared with a sequential model, on both backends and both ciphers. Exploration fits: the guarantee is over histories x configurations.",
+   note="Re-use of one secret id in two different folders is excluded (ids are account-wide unique by design; the sqlite schema enforces it). Timestamps inside meta data are not compared. Sampling only.",
+   tech="deterministic simulation: seeded operation histories with restart injection vs sequential reference model"),
  "C06": dict(cat="exploration", design="DESIGN.md section 6 C06",
    text="Seeded histories of event-log operations are applied in lock-step to the real file-system and sqlite event logs (12 co-resident logs) and to a sequential model; after every step storage, in-memory tree, a re-opened instance, forward/reverse streams and every *other* log are compared. Exploration is the right level: the property is a refinement over operation histories, and the simulator reaches duplicate hashes, multi-record rewinds, co-resident logs and cross-backend agreement that unit tests never sample.",
    note="Trusts the harness model of append/rewind/replace semantics, SQLite itself and tmpfs. Sampling only.",
